@@ -214,7 +214,9 @@ def run_job(job, rec):
 
         # cdf differences are the integral of the estimator's own density
         a, b = np.sort(rng.uniform(ss[0] - 3 * h, ss[-1] + 3 * h, size=2))
-        if b - a > h:
+        if b - a > h and (b - a) / h > 480:
+            rec.count("cdf_vs_integral_not_judged_kernels_unresolved")   # 40 nodes per bandwidth would need more than 20000 nodes: the harness's quadrature, not the library, would be judged
+        elif b - a > h:
             m = int(min(max(40 * (b - a) / h, 200), 20000)) | 1
             grid = np.linspace(a, b, m)
             pg = guarded(kde, grid)
@@ -225,7 +227,7 @@ def run_job(job, rec):
                 integ = float(simpson(np.asarray(pg), x=grid))
                 rec.count("cdf_vs_integral_checks")
                 # truncation of the cdf (2 Phi(-3.5)) and of the density (a fraction <= exp(-3.5^2/2) of each kernel's mass)
-                tol_int = 2 * PHI35 + 2.2e-3 * integ + 1e-6 + (1e-2 * integ if m >= 20000 else 0.0)
+                tol_int = 2 * PHI35 + 2.2e-3 * integ + 1e-6
                 rec.check(abs((cg[1] - cg[0]) - integ) <= tol_int,
                           "cdf-not-integral-of-pdf", lambda: f"cdf({b!r}) - cdf({a!r}) = {cg[1] - cg[0]!r} but the density integrates to {integ!r}", rec.context)
 
